@@ -306,7 +306,20 @@ class Run:
             r.out = call(s.tag_object, op["pid"], cid)
             r.exp = m.tag(op["pid"], cid)
         elif k == "delete":
-            r.out = call(s.delete_object, op["pid"])
+            if op.get("fault") == "marker-remove":
+                # the removal of the first "<name>_delete" marker fails once (EIO): a state with a left-over marker that
+                # the store can be in after an I/O error (only used by checks that do not judge residue)
+                from . import fsi
+                fired = []
+
+                def cb(ev):
+                    if not fired and ev.kind in ("remove", "unlink") and ev.dest.endswith("_delete"):
+                        fired.append(ev)
+                        raise OSError(5, "Input/output error [injected]", ev.dest)
+                with fsi.active(self.root, cb):
+                    r.out = call(s.delete_object, op["pid"])
+            else:
+                r.out = call(s.delete_object, op["pid"])
             r.exp = m.delete(op["pid"])
         elif k == "dii":
             om = self.om.get(op["c"])
